@@ -53,9 +53,22 @@ type scfg struct {
 	Budget   int      `json:"byz_budget"`
 	Rich     bool     `json:"rich"` // full Byzantine alphabet
 	Early    bool     `json:"early_advance"`
+	// Out: authenticated senders that are not configured members (they hold no tag of their own
+	// that anybody registered, but can compute every member's tag from the topic)
+	Out []uint16 `json:"outsiders,omitempty"`
+	// React: a reactive adversary (Out[0], else Byz[0]): whenever an honest member broadcasts, it
+	// announces itself to that member and acknowledges the view it wants to impose.
+	// "<tag>:<view>", tag in own|invoker|absent, view in withme|withabsent
+	React string `json:"react,omitempty"`
 }
 
 func (k scfg) id() string {
+	if len(k.Out) > 0 {
+		return fmt.Sprintf("%s/U%v/e%d/inv%v/byz%v/out%v%s", k.Name, k.U, k.E, k.Invokers, k.Byz, k.Out, k.React)
+	}
+	if k.React != "" {
+		return fmt.Sprintf("%s/U%v/e%d/inv%v/byz%v/%s", k.Name, k.U, k.E, k.Invokers, k.Byz, k.React)
+	}
 	return fmt.Sprintf("%s/U%v/e%d/inv%v/byz%v", k.Name, k.U, k.E, k.Invokers, k.Byz)
 }
 
@@ -92,10 +105,58 @@ type byzAct struct {
 	from  uint16
 	to    uint16
 	data  []byte
+	more  []byzAct // further messages of a macro action, injected in this order
+}
+
+// outsiderActions: an authenticated non-member uses the tag of a configured member (absent, or an
+// invoker) or a tag computed for itself; single messages and floods (types 1,2,3 to every invoker).
+func (k scfg) outsiderActions() []byzAct {
+	var acts []byzAct
+	for _, x := range k.Out {
+		var absent []uint16
+		for _, u := range k.U {
+			if !isIn(u, k.Invokers) && !isIn(u, k.Byz) {
+				absent = append(absent, u)
+			}
+		}
+		type tg struct {
+			n string
+			t []byte
+		}
+		tags := []tg{{"outsider", tagOf(x)}, {"invoker", tagOf(k.Invokers[0])}}
+		for _, a := range absent {
+			tags = append(tags, tg{fmt.Sprintf("absent%d", a), tagOf(a)})
+		}
+		withX := append(append([]uint16(nil), k.Invokers...), x)
+		sort.Slice(withX, func(i, j int) bool { return withX[i] < withX[j] })
+		views := [][]uint16{withX}
+		for _, a := range absent {
+			v := append(append([]uint16(nil), k.Invokers...), a)
+			sort.Slice(v, func(i, j int) bool { return v[i] < v[j] })
+			views = append(views, v)
+		}
+		for _, t := range tags {
+			for _, vw := range views {
+				var seq []byzAct
+				for mt := byte(1); mt <= 3; mt++ {
+					for _, v := range k.Invokers {
+						one := byzAct{label: fmt.Sprintf("out %d>%d s%d %s %v", x, v, mt, t.n, vw), from: x, to: v, data: encode(mt, t.t, vw)}
+						acts = append(acts, one)
+						seq = append(seq, one)
+					}
+				}
+				fl := seq[0]
+				fl.label = fmt.Sprintf("out %d flood %s %v", x, t.n, vw)
+				fl.more = seq[1:]
+				acts = append(acts, fl)
+			}
+		}
+	}
+	return acts
 }
 
 func (k scfg) actions() []byzAct {
-	var acts []byzAct
+	acts := k.outsiderActions()
 	for _, b := range k.Byz {
 		var views [][]uint16
 		all := append([]uint16(nil), k.Invokers...)
@@ -156,7 +217,7 @@ func (k scfg) actions() []byzAct {
 func run(c *harness.C, k scfg, r world.Chooser) *out {
 	o := &out{m: map[uint16]*compl{}}
 	rec := c.Bubble(func() {
-		w := world.New(k.U)
+		w := world.New(append(append([]uint16(nil), k.U...), k.Out...))
 		w.Quantum = interval / 2
 		w.EarlyAdvance = k.Early
 		var mu sync.Mutex
@@ -166,6 +227,9 @@ func run(c *harness.C, k scfg, r world.Chooser) *out {
 		}
 		w.OnDeliver = func(p *world.Packet) {
 			mu.Lock()
+			if heard[p.To] == nil {
+				heard[p.To] = map[uint16]bool{}
+			}
 			heard[p.To][p.From] = true
 			mu.Unlock()
 		}
@@ -186,6 +250,54 @@ func run(c *harness.C, k scfg, r world.Chooser) *out {
 					Send:      func(msg []byte, to uint16) { send(1, topic, msg, to) }}
 				return &memberParty{m: m}
 			})
+		}
+		if k.React != "" {
+			adv := uint16(0)
+			if len(k.Out) > 0 {
+				adv = k.Out[0]
+			} else {
+				adv = k.Byz[0]
+			}
+			var absent []uint16
+			for _, u := range k.U {
+				if !isIn(u, k.Invokers) && !isIn(u, k.Byz) {
+					absent = append(absent, u)
+				}
+			}
+			parts := strings.SplitN(k.React, ":", 2)
+			tg := tagOf(adv)
+			switch {
+			case parts[0] == "invoker":
+				tg = tagOf(k.Invokers[0])
+			case parts[0] == "absent" && len(absent) > 0:
+				tg = tagOf(absent[0])
+			}
+			lie := append(append([]uint16(nil), k.Invokers...), adv)
+			if parts[1] == "withabsent" && len(absent) > 0 {
+				lie = append(append([]uint16(nil), k.Invokers...), absent[0])
+			}
+			sort.Slice(lie, func(i, j int) bool { return lie[i] < lie[j] })
+			w.Net.Filter = func(p *world.Packet) []*world.Packet {
+				if p.Injected || p.From == adv || !isIn(p.From, k.Invokers) || p.Type != 1 {
+					return []*world.Packet{p}
+				}
+				// once per broadcast: react to the copy addressed to the first other member
+				first := k.U[0]
+				if first == p.From {
+					first = k.U[1]
+				}
+				if p.To != first {
+					return []*world.Packet{p}
+				}
+				mu.Lock()
+				heard[p.From][adv] = true
+				mu.Unlock()
+				out := []*world.Packet{p}
+				for mt := byte(1); mt <= 3; mt++ {
+					out = append(out, &world.Packet{From: adv, To: p.From, Type: 1, Topic: topic, Data: encode(mt, tg, lie)})
+				}
+				return out
+			}
 		}
 		started := map[uint16]bool{}
 		w.Extra = func() []world.Event {
@@ -238,6 +350,12 @@ func run(c *harness.C, k scfg, r world.Chooser) *out {
 					heard[a.to][a.from] = true
 					mu.Unlock()
 					w.Net.Inject(&world.Packet{From: a.from, To: a.to, Type: 1, Topic: topic, Data: a.data})
+					for _, m := range a.more {
+						mu.Lock()
+						heard[m.to][m.from] = true
+						mu.Unlock()
+						w.Net.Inject(&world.Packet{From: m.from, To: m.to, Type: 1, Topic: topic, Data: m.data})
+					}
 				}}
 			}
 			return ev
@@ -317,7 +435,7 @@ func oracle(c *harness.C, k scfg, o *out, rp replay, deviations int) {
 			}
 		}
 	}
-	if len(k.Byz) == 0 {
+	if len(k.Byz) == 0 && len(k.Out) == 0 {
 		if len(k.Invokers) == k.E && completers != k.E {
 			var errs []string
 			for _, id := range k.Invokers {
@@ -485,6 +603,35 @@ func gen(c *harness.C) []harness.Case {
 				if bb > 1 {
 					plans = append(plans, plan{scfg{Name: "byz1k", U: u, E: e, Invokers: inv, Byz: []uint16{b}, Budget: bb}, bb})
 				}
+			}
+		}
+	}
+	// an authenticated outsider (not a configured member)
+	for _, u := range [][]uint16{{1, 2, 3}, {1, 2, 3, 4}} {
+		for e := 2; e <= 3; e++ {
+			for _, inv := range [][]uint16{{1, 2}, {1, 2, 3}} {
+				if len(inv) > e || len(inv) >= len(u) && e > len(inv) {
+					continue
+				}
+				bd := 1
+				if c.Thorough() {
+					bd = 2
+				}
+				plans = append(plans, plan{scfg{Name: "outsider", U: u, E: e, Invokers: inv, Out: []uint16{9}, Budget: bd}, bd})
+			}
+		}
+	}
+	// reactive adversaries: an outsider / a Byzantine member that answers every honest broadcast
+	for _, rc := range []string{"own:withme", "invoker:withme", "absent:withme", "absent:withabsent", "own:withabsent"} {
+		for _, e := range []int{2, 3} {
+			bd := 1
+			if c.Thorough() {
+				bd = 2
+			}
+			plans = append(plans, plan{scfg{Name: "reactive-outsider", U: []uint16{1, 2, 3}, E: e, Invokers: []uint16{1, 2}, Out: []uint16{9}, React: rc}, bd})
+			plans = append(plans, plan{scfg{Name: "reactive-outsider", U: []uint16{1, 2, 3, 4}, E: e, Invokers: []uint16{1, 2}, Out: []uint16{9}, React: rc}, bd - 1})
+			if !strings.HasPrefix(rc, "absent") {
+				plans = append(plans, plan{scfg{Name: "reactive-byz", U: []uint16{1, 2, 3}, E: e, Invokers: []uint16{1, 2}, Byz: []uint16{3}, React: rc}, bd})
 			}
 		}
 	}
